@@ -68,6 +68,16 @@ func handWorldPayload() *gen.World {
 	return w
 }
 
+// handWorldMatrix: the hand-written federation plus Human.matrix: [[Pet!]!] (a list of lists of a Node type) in service a.
+func handWorldMatrix() *gen.World {
+	w := handWorld()
+	h := w.Services[0].Def("Human")
+	h.Fields = append(h.Fields, gen.Field{Name: "matrix", Type: "[[Pet!]!]"})
+	w.Store.Entities["h1"].Fields["matrix"] = fake.List(fake.List(fake.Ref("p1"), fake.Ref("p2")), fake.List(fake.Ref("p2")))
+	w.Store.Entities["h2"].Fields["matrix"] = fake.List()
+	return w
+}
+
 type c02Case struct {
 	WorldSeed int64      `json:"world_seed"`
 	Domain    string     `json:"world_domain,omitempty"` // "" = inD01, "inputs" = string fields taking filter: [FilterIn!]
